@@ -690,7 +690,7 @@ func C09() kit.Engine {
 		Id:  "C09",
 		New: func(st *kit.Stats) kit.SeqSim { return &c09{st: st} },
 		Desc: kit.Description{
-			Rule: "one run = one drawn history on a filter handle (filter shape, op mix and length drawn per run; Unload / Reload(fresh) / Reload(earlier object) / restart-from-wire injected at drawn points), compared step by step with an independent BIP37 model; non-trivial = at least one insertion, then at least one fault operation, then at least one membership query; distinct = distinct FNV-64 signature of the executed op list",
+			Rule: "one run = one drawn history on one or two filter handles that may load the same message objects (shape, op mix and length drawn per run; items incl. lengths around powers of two, distinguished hashes; Unload / Reload(nil) / Reload(fresh) / Reload(populated) / Reload(earlier object) / restart-from-wire / LoadFilter of an existing message injected at drawn points), every message object's bits and every answer compared step by step with an independent BIP37 model; non-trivial = at least one insertion, then at least one fault operation, then at least one membership query; distinct = distinct FNV-64 signature of the executed op list",
 			RealVsStub: map[string]string{
 				"bloom.Filter, bloom.MurmurHash3, bloom.NewFilter/LoadFilter": "real (from /repo working tree)",
 				"wire.MsgFilterLoad encode/decode (restart)":                  "real dependency (bchd/wire)",
